@@ -83,6 +83,7 @@ def tasks(tier):
                            dict(modname=mn, clsname=cn, lagrange=(o, d, p, iv))))
         else:
             ts.append((cn, "run_class", dict(modname=mn, clsname=cn, lagrange=None)))
+    ts.append(("instance independence", "run_independence", {}))
     ts.append(("discovery", "run_discovery", dict(expected=[c for _, c in found])))
     ts.append(("canary", "run_canary", {}))
     ts.append(("permutation-tables", "run_perm_tables", dict(maxorder=3 if tier == "quick" else 5)))
@@ -242,6 +243,33 @@ def run_class(col, modname, clsname, lagrange):
     pts_now = npmodel.to_obj(it.getattr(el, "points"))
     col.add("C04.O8", "%s.points untouched" % label, "evaluating the element does not alter its node coordinates",
             pts_now.shape == points.shape and all(is_zero(P(a) - P(b)) for a, b in zip(pts_now.reshape(-1), points.reshape(-1))), nontrivial=False)
+    finish_info(col, it)
+
+
+def run_independence(col):
+    """O9: an element is determined by its own constructor arguments: elements constructed earlier in the same process (other interval,
+    other order, other dimension) do not change it (no state shared between instances through the class)"""
+    it = new_interp()
+    L = it.get("felupe.element._lagrange:ArbitraryOrderLagrange")
+    first = [dict(order=2, dim=1, interval=(0, 1)), dict(order=1, dim=2, interval=(0, 2)), dict(order=3, dim=1, interval=(-3, 1), permute=False)]
+    for kw in first:
+        it.call(L, [], kw)
+    later = [("ArbitraryOrderLagrange(order=2,dim=2)", L, dict(order=2, dim=2)), ("ArbitraryOrderLagrange(order=1,dim=3)", L, dict(order=1, dim=3)),
+             ("ArbitraryOrderLagrange(order=3,dim=1,interval=(0,1))", L, dict(order=3, dim=1, interval=(0, 1))),
+             ("BiQuadraticQuad", it.get("felupe.element._quad:BiQuadraticQuad"), {}), ("TriQuadraticHexahedron", it.get("felupe.element._hexahedron:TriQuadraticHexahedron"), {}),
+             ("Hexahedron", it.get("felupe.element._hexahedron:Hexahedron"), {})]
+    for label, cls, kw in later:
+        def chk(cls=cls, kw=kw):
+            el = it.call(cls, [], kw)
+            pts = npmodel.to_obj(it.getattr(el, "points"))
+            bad = []
+            for b in range(pts.shape[0]):
+                h = npmodel.to_obj(np.asarray(it.call_method(el, "function", [pts[b]])))
+                for a in range(h.shape[0]):
+                    if not is_zero(P(h[a]) - (ONE if a == b else ZERO)):
+                        bad.append((a, b))
+            return not bad, "%s: function[a](points[b]) != delta_ab for %s after other elements were constructed" % (where_of(cls), bad[:4])
+        col.check("C04.O9", "%s constructed after other elements" % label, "nodal basis at the element's own points, whatever elements were constructed before in the same process", chk)
     finish_info(col, it)
 
 
